@@ -184,15 +184,23 @@ def handle (op : String) (args : List String) : Option String :=
       | forged :: data :: hash :: n :: rest => do
         let (is, tail) ← parseIdents (← n.toNat?) rest
         if !tail.isEmpty then none
-        let (entry, k) ← rpcEntry rpc
         let data ← ofHex data
         let hash ← parseOpt hash
-        let svc : Request → Option String := fun r => runEntry entry is r.clientId k r.payload hash true
         let forged ← parseOpt forged
         let conn : ConnId := match extractClientID Sha512.sha512 (← parseMode mode) (some cert) with
           | .ok id => some id
           | _ => none
-        serverCall true rpc svc (some "err") conn ⟨forged.getD [], data⟩
+        if rpc == "GenerateQueryHash" then
+          -- deterministic: the blind index of the data under the HMAC key of the identity the service is given
+          let svc : Request → Option String := fun r =>
+            match hmacOfIdents is r.clientId with
+            | some key => some ("ok " ++ hexOf (generateHash C key r.payload))
+            | none => some "err"
+          serverCall true rpc svc (some "err") conn ⟨forged.getD [], data⟩
+        else
+          let (entry, k) ← rpcEntry rpc
+          let svc : Request → Option String := fun r => runEntry entry is r.clientId k r.payload hash true
+          serverCall true rpc svc (some "err") conn ⟨forged.getD [], data⟩
       | _ => none
   -- as entry idx kind data hash n idents…
   | "as", entry :: idx :: kind :: data :: hash :: n :: rest => do
